@@ -43,6 +43,8 @@ func init() {
 const tuPkg = "pkg/timeutil."
 
 func runC13(c *eng.Ctx) {
+	rowsInsideFirstRowsFamilyRange(c)
+	rollupSlotBaseIsTheFamilyStart(c)
 	calendarSkeleton(c)
 	segmentNameRoundTrip(c)
 	calcFamilyInsideItsSegment(c)
